@@ -683,6 +683,35 @@ def sql_probes(rng, strs, decl, T):
     return out
 
 
+def wrap_kind(kind, v):
+    sg, nb = KINDS[kind]
+    r = v % (1 << nb)
+    return r - (1 << nb) if sg and r >= (1 << (nb - 1)) else r
+
+
+def isenum_matrix(kind, decl, per=14):
+    """IsEnum probes for every integer type TV: [(tv, [values of tv])] -- declared values, the integers that wrap onto
+    them in T, their reinterpretations in TV, and the corners of both types"""
+    lo, hi = krange(kind)
+    mT = 1 << KINDS[kind][1]
+    vals = [v for _, v in decl]
+    pick = sorted(set(vals[:3] + [min(vals), max(vals)]))
+    out = []
+    for tv in KIND_NAMES:
+        l2, h2 = krange(tv)
+        mV = 1 << KINDS[tv][1]
+        c = []
+        for v in pick:
+            c += [v, v + mT, v - mT, v + 2 * mT, wrap_kind(tv, v), v + mV, v - mV, v + 1, v - 1]
+        c += [l2, h2, 0, -1, 1, hi, hi + 1, lo, lo - 1, l2 + 1, h2 - 1]
+        seen = []
+        for v in c:
+            if l2 <= v <= h2 and v not in seen:
+                seen.append(v)
+        out.append((tv, seen[:per]))
+    return out
+
+
 def pick_target(kind, decl):
     lo, hi = krange(kind)
     vs = set(v for _, v in decl)
@@ -728,8 +757,6 @@ func verifRes(err error, t %(T)s) string {
 	return "err " + verifDec(t)
 }
 
-func verifIsEnum(v int64) bool   { return shoot.IsEnum[%(T)s, int64](v) }
-func verifIsEnumU(v uint64) bool { return shoot.IsEnum[%(T)s, uint64](v) }
 ''' % {"T": T})
     src.append("func VerifObserve(emit func(string, string)) {\n\tvar z %s\n\tconst target = %s\n" % (T, golit(T, target)))
     src.append('\temit("decl", strings.Join([]string{%s}, ","))\n' % ", ".join('"%s=" + verifDec(%s)' % (n, n) for n, _ in decl))
@@ -835,17 +862,15 @@ func verifIsEnumU(v uint64) bool { return shoot.IsEnum[%(T)s, uint64](v) }
 	}
 ''' % {"T": T})
 
-    def isenum_lines(vals, prefix):
-        small = [v for v in vals if -MAXI64 - 1 <= v <= MAXI64]
-        bigs = [v for v in vals if v > MAXI64]
-        s = ""
-        if small:
-            s += '\tfor _, v := range []int64{%s} {\n\t\temit("%sisenum:"+strconv.FormatInt(v, 10), strconv.FormatBool(verifIsEnum(v)))\n\t}\n' % (
-                ", ".join(str(v) for v in small), prefix)
-        if bigs:
-            s += '\tfor _, v := range []uint64{%s} {\n\t\temit("%sisenum:"+strconv.FormatUint(v, 10), strconv.FormatBool(verifIsEnumU(v)))\n\t}\n' % (
-                ", ".join(str(v) for v in bigs), prefix)
-        return s
+    def isenum_lines(groups, prefix):
+        out = ""
+        for tv, vals in groups:
+            if not vals:
+                continue
+            fmt = "strconv.FormatInt(int64(v), 10)" if KINDS[tv][0] else "strconv.FormatUint(uint64(v), 10)"
+            out += ('\tfor _, v := range []%s{%s} {\n\t\temit("%sisenum:%s:"+%s, strconv.FormatBool(shoot.IsEnum[%s, %s](v)))\n\t}\n'
+                    % (tv, ", ".join(str(v) for v in vals), prefix, tv, fmt, T, tv))
+        return out
     src.append(isenum_lines(ints, ""))
     src.append(isenum_lines(tints, "T/"))
     src.append("}\n")
